@@ -203,7 +203,8 @@ CHECKS = {
             "Kernel-checked theorems (reference-free types, any nesting): C09_equal_partial (the byte copy of a constructed object into "
             "ANY destination memory at ANY offset with room - same buffer, other buffer, other context - reads as the source's value, "
             "and the source still does), C09_source_unaffected (writes inside the disjoint extent of the copy never change what the "
-            "source reads).",
+            "source reads), C09_writes_do_not_show_through (copy inside ONE buffer at a disjoint extent: both read the value; a store "
+            "of any scalar element of either is read by it as exactly that element replaced and leaves the other's value untouched).",
             "Partial: types holding references are rebuilt field-/item-wise (same referent in the same buffer, duplicated referent "
             "otherwise): executable model + oracle only.",
             "7/C09"),
